@@ -492,7 +492,9 @@ class sptensor:
 
         # Check for the case where we accumulate over *all* dimensions
         if remdims.size == 0:
-            # reshape (rather than transpose()[0]) also covers the case of no stored entries
+            if self.vals.size == 0:
+                # as in the other branches, a slice without stored entries collapses to 0
+                return 0.0
             result = function_handle(self.vals.reshape(-1))
             if isinstance(result, np.generic):
                 result = result.item()
